@@ -1,7 +1,12 @@
 //! pv-harness-bld: drives the real pilota-build.
 //!
 //!   pv-harness-bld gen <thrift|pb> <single|split|workspace|workspace-split> <out> [flags] -- <idl>...
-//!       flags: --keep  --no-change-case  --no-ignore-unused  --include <dir>  --dump <file>
+//!       flags: --keep  --no-change-case  --no-ignore-unused  --include <dir>  --dump <file>  --dump-derive <file>
+//!       --dump-derive writes the input of AutoDerivePlugin as the plugins see it (the resolved rir, not the IDL):
+//!         ORDER <def ids of Context.codegen_items, comma separated>
+//!         ITEM <def id> <emitted 0|1> <Display of rust_name> <M:ty,ty | E:ty,ty/ty | N:ty | S | C | O>
+//!       for every codegen item and every item reachable from one through the paths inside its types
+//!       (ty = TyKind names in prefix form joined by '.', a path is P<def id>)
 //!       --dump writes, before emission, one line per codegen item in the order pilota-build will hand
 //!       them to write_items (single/split: Context.codegen_items; workspace: location_map iteration
 //!       order, which is the per-crate item order of group_defs):
@@ -73,6 +78,126 @@ impl Plugin for DumpPlugin {
     }
 }
 
+/// dumps the item graph AutoDerivePlugin walks -- used by the C14 derive correspondence
+struct DeriveDumpPlugin {
+    path: PathBuf,
+}
+
+fn ty_text(t: &pilota_build::ty::Ty, out: &mut String, paths: &mut Vec<DefId>) {
+    use pilota_build::ty::TyKind as K;
+    let name = match &t.kind {
+        K::String => "String",
+        K::FastStr => "FastStr",
+        K::Void => "Void",
+        K::U8 => "U8",
+        K::Bool => "Bool",
+        K::BytesVec => "BytesVec",
+        K::Bytes => "Bytes",
+        K::I8 => "I8",
+        K::I16 => "I16",
+        K::I32 => "I32",
+        K::I64 => "I64",
+        K::UInt32 => "UInt32",
+        K::UInt64 => "UInt64",
+        K::F32 => "F32",
+        K::F64 => "F64",
+        K::OrderedF64 => "OrderedF64",
+        K::Uuid => "Uuid",
+        K::Vec(a) => {
+            out.push_str("Vec.");
+            return ty_text(a, out, paths);
+        }
+        K::Set(a) => {
+            out.push_str("Set.");
+            return ty_text(a, out, paths);
+        }
+        K::BTreeSet(a) => {
+            out.push_str("BTreeSet.");
+            return ty_text(a, out, paths);
+        }
+        K::Arc(a) => {
+            out.push_str("Arc.");
+            return ty_text(a, out, paths);
+        }
+        K::Map(a, b) => {
+            out.push_str("Map.");
+            ty_text(a, out, paths);
+            out.push('.');
+            return ty_text(b, out, paths);
+        }
+        K::BTreeMap(a, b) => {
+            out.push_str("BTreeMap.");
+            ty_text(a, out, paths);
+            out.push('.');
+            return ty_text(b, out, paths);
+        }
+        K::Path(p) => {
+            paths.push(p.did);
+            out.push_str(&format!("P{}", p.did.as_u32()));
+            return;
+        }
+    };
+    out.push_str(name);
+}
+
+impl Plugin for DeriveDumpPlugin {
+    fn on_codegen_uint(&mut self, cx: &Context, items: &[DefId]) {
+        let mut out = String::new();
+        out.push_str("ORDER ");
+        out.push_str(&items.iter().map(|d| d.as_u32().to_string()).collect::<Vec<_>>().join(","));
+        out.push('\n');
+        let emitted: std::collections::HashSet<DefId> = items.iter().copied().collect();
+        let mut seen: std::collections::HashSet<DefId> = std::collections::HashSet::new();
+        let mut queue: std::collections::VecDeque<DefId> = items.iter().copied().collect();
+        while let Some(def_id) = queue.pop_front() {
+            if !seen.insert(def_id) {
+                continue;
+            }
+            let item = match cx.item(def_id) {
+                Some(i) => i,
+                None => continue,
+            };
+            let mut paths = vec![];
+            let tys = |l: Vec<&pilota_build::ty::Ty>, paths: &mut Vec<DefId>| {
+                l.iter()
+                    .map(|t| {
+                        let mut s = String::new();
+                        ty_text(t, &mut s, paths);
+                        s
+                    })
+                    .collect::<Vec<_>>()
+                    .join(",")
+            };
+            let body = match &*item {
+                pilota_build::rir::Item::Message(m) => {
+                    format!("M:{}", tys(m.fields.iter().map(|f| &f.ty).collect(), &mut paths))
+                }
+                pilota_build::rir::Item::Enum(e) => format!(
+                    "E:{}",
+                    e.variants
+                        .iter()
+                        .map(|v| tys(v.fields.iter().collect(), &mut paths))
+                        .collect::<Vec<_>>()
+                        .join("/")
+                ),
+                pilota_build::rir::Item::NewType(t) => format!("N:{}", tys(vec![&t.ty], &mut paths)),
+                pilota_build::rir::Item::Service(_) => "S".to_string(),
+                pilota_build::rir::Item::Const(_) => "C".to_string(),
+                pilota_build::rir::Item::Mod(_) => "O".to_string(),
+            };
+            out.push_str(&format!(
+                "ITEM {} {} {} {}\n",
+                def_id.as_u32(),
+                if emitted.contains(&def_id) { 1 } else { 0 },
+                cx.rust_name(def_id),
+                body
+            ));
+            queue.extend(paths);
+        }
+        std::fs::write(&self.path, out).unwrap();
+    }
+}
+
 fn usage() -> ! {
     eprintln!("usage: pv-harness-bld gen <thrift|pb> <single|split|workspace|workspace-split> <out> [flags] -- <idl>... | lines");
     std::process::exit(2)
@@ -103,6 +228,7 @@ fn gen(a: &[String]) {
     let mut ignore_unused = true;
     let mut includes: Vec<PathBuf> = vec![];
     let mut dump: Option<PathBuf> = None;
+    let mut dump_derive: Option<PathBuf> = None;
     let mut files: Vec<PathBuf> = vec![];
     let mut i = 3;
     let mut in_files = false;
@@ -122,6 +248,10 @@ fn gen(a: &[String]) {
                 "--dump" => {
                     i += 1;
                     dump = Some(PathBuf::from(&a[i]));
+                }
+                "--dump-derive" => {
+                    i += 1;
+                    dump_derive = Some(PathBuf::from(&a[i]));
                 }
                 "--" => in_files = true,
                 _ => usage(),
@@ -171,6 +301,9 @@ fn gen(a: &[String]) {
             if let Some(p) = dump.clone() {
                 b = b.plugin(DumpPlugin { path: p, workspace });
             }
+            if let Some(p) = dump_derive.clone() {
+                b = b.plugin(DeriveDumpPlugin { path: p });
+            }
             b.compile_with_config(services, output)
         }
         "pb" => {
@@ -182,6 +315,9 @@ fn gen(a: &[String]) {
                 .keep_unknown_fields(keep_files.clone());
             if let Some(p) = dump.clone() {
                 b = b.plugin(DumpPlugin { path: p, workspace });
+            }
+            if let Some(p) = dump_derive.clone() {
+                b = b.plugin(DeriveDumpPlugin { path: p });
             }
             b.compile_with_config(services, output)
         }
